@@ -985,6 +985,14 @@ def c07_check_program(steps: list, sel: str, seed: int) -> dict:
     stats = {"valued": 0, "compared": 0, "derived_types": 0, "multi": 0}
     r = run_program(steps, sel)
     infra = None
+    if r["raised"] and sel != "none":
+        # value propagation only adds information: a program that constructs with propagation off must construct
+        # under every backend (a propagated value of the wrong representation makes the NEXT constructor choke)
+        off = run_program(steps, "none")
+        if not off["raised"]:
+            k_r, cls, msg = r["raised"]
+            fails.append((f"construct-raises:{steps[k_r]['op'] if steps[k_r]['op'] != 'mlop' else steps[k_r]['name']}:{cls}",
+                          f"[{sel}] step {k_r} {json_short(steps[k_r])} raised {cls} ({msg[:90]}) but constructs with propagation off"))
     if r["raised"]:
         # judge the Vars constructed before the raising step all the same (a wrong propagated constant
         # typically shows up *before* the operator that chokes on it)
@@ -1220,6 +1228,9 @@ def off_check_program(steps: list, sel: str, seed: int) -> dict:
         st, cls, msg = on["raised"]
         if steps[st]["op"] == "const":  # no backend involved: spox's own Constant / initializer propagation raised
             return {"failures": [(f"const-raises:{cls}", f"constructing {json_short(steps[st])} raised {cls}: {msg[:100]}")]}
+        if not off["raised"]:  # constructs with propagation off, fails with it on (no fault injected)
+            nm = steps[st]["name"] if steps[st]["op"] == "mlop" else steps[st]["op"]
+            return {"failures": [(f"on-raises:{nm}:{cls}", f"[{sel}] {json_short(steps[st])} raised {cls} ({msg[:90]}) with propagation on, constructs with it off")]}
         return {"failures": [], "infra": f"program raised {on['raised']}"}
     if off["raised"]:
         st, cls, msg = off["raised"]
